@@ -185,8 +185,19 @@ def gm_case(draw):
         alph = alph + ["Dgate", "Dgate", "Sgate"]
         D = 8 if n < 3 else 7
     ops_ = []
-    for _ in range(draw(st.integers(2, 9))):
-        name = draw(st.sampled_from(alph))
+    # layered circuits: blocks of Gaussian gates separated by layers of non-Gaussian gates on several modes (the shape the merge is made for);
+    # otherwise a flat random sequence
+    layered = n > 1 and draw(st.booleans())
+    names = []
+    if layered:
+        gl = [a for a in alph if a not in ("Kgate", "CKgate")]
+        for _ in range(draw(st.integers(1, 3))):
+            names += [draw(st.sampled_from(gl)) for _ in range(draw(st.integers(1, 4)))]
+            names += [draw(st.sampled_from(["Kgate", "Kgate", "CKgate"])) for _ in range(draw(st.integers(1, 3)))]
+        names = names[:11]
+    else:
+        names = [draw(st.sampled_from(alph)) for _ in range(draw(st.integers(2, 9)))]
+    for name in names:
         if name in ("Dgate", "Sgate"):
             m = draw(st.integers(0, n - 1))
             ops_.append([name, [draw(gen.fl(0.05, 0.2)) * (1 if name == "Dgate" else draw(st.sampled_from([1, -1]))), draw(gen.angle())], [m], {"H": True} if draw(st.integers(0, 3)) == 0 else {}])
@@ -198,7 +209,7 @@ def gm_case(draw):
             o = draw(gen.op_spec(n, [name], "fock", dagger=True, no_mz_dagger=True))
             ops_.append(o)
     meas = draw(st.sampled_from([None, None, "fock"]))
-    return {"n": n, "cutoff": D, "ket": draw(ket_terms(n, min(D - 1, 2) if not active else 1)), "ops": ops_, "measure": meas, "active": active}
+    return {"n": n, "cutoff": D, "ket": draw(ket_terms(n, min(D - 1, 2) if not active else 1)), "ops": ops_, "measure": meas, "active": active, "layered": layered}
 
 
 def check_gm(ctx, case):
@@ -285,8 +296,8 @@ SUBS = [
         shards={"quick": 2, "thorough": 16}, rule="gaussian_unitary on generated index subsets with .H: maps of source and output equal"),
     Sub("passive", check=check_pa, strategy=lambda ctx: subset_case(PA_ALPH), examples={"quick": 1200, "thorough": 12000},
         shards={"quick": 1, "thorough": 16}, rule="passive compiler: transfer matrix and loss noise of source and output equal"),
-    Sub("gaussian_merge", check=check_gm, strategy=lambda ctx: gm_case(), examples={"quick": 150, "thorough": 1500},
-        shards={"quick": 2, "thorough": 16}, rule="hybrid passive+Kerr circuits: fock states of source and gaussian_merge output equal"),
+    Sub("gaussian_merge", check=check_gm, strategy=lambda ctx: gm_case(), examples={"quick": 300, "thorough": 2500},
+        shards={"quick": 4, "thorough": 16}, rule="hybrid circuits (passive gates + Kerr / cross-Kerr; variant A adds small displacements and squeezers): fock states of source and gaussian_merge output equal"),
 ]
 
 MANIFEST = {
